@@ -912,14 +912,16 @@ def tree_stats(tree, g, dag_opt):
                 labels.add("p2:stream-in-fused-group")
             if node.get("nout", 1) > 1:
                 labels.add("p2:multi-output-root-fused")
-            for i in set(fused_ins):
-                if g[i] != g[outs[0]]:
-                    labels.add("p2:unequal-task-counts-fused")
-                labels.add(f"p2:fused-pred={prod[i]['shape']}")
-                labels.add(f"p2:fused-succ={node['shape']}")
             if s or r:
                 nt = True
         maxdepth = max(maxdepth, d)
+    for node in tree["nodes"]:
+        for i in set(node["ins"]):
+            if i in removed:
+                labels.add(f"p2:fused-pred={prod[i]['shape']}")
+                labels.add(f"p2:fused-succ={node['shape']}")
+                if g[i] != g[node_outputs(node)[0]]:
+                    labels.add("p2:unequal-task-counts-fused")
     labels.add(f"p2:fused-ops={min(nfused, 3)}")
     return labels, nt
 
@@ -1243,7 +1245,7 @@ class _KeyExpander:
             shape, chunks = tuple(t.shape), tuple(t.chunks)
             if len(chunks) != len(shape) or any(isinstance(c, (tuple, list)) for c in chunks):
                 return False
-            grid = [(-(-s // c) if c else 1) for s, c in zip(shape, chunks)]
+            grid = [(max(1, -(-s // c)) if c else 1) for s, c in zip(shape, chunks)]  # a size-0 axis has one (empty) block
             return [tuple(m) for m in po.pipeline.mappable] == list(itertools.product(*[range(n) for n in grid]))
         except Exception:
             return False
@@ -1362,7 +1364,7 @@ def check_plan(case) -> Outcome:
             try:
                 t1 = e1.block(arr, co)
             except Exception as e:  # noqa
-                if opt == "legacy" and isinstance(e, AttributeError):
+                if opt == "legacy" and isinstance(e, AttributeError) and "has no attribute 'coords'" in str(e):
                     # recorded defect of the legacy optimizer (iterator successor), see ASSUMPTIONS
                     labels.add("p3:legacy-excluded(defect-17-region)")
                     return Outcome(labels=tuple(sorted(labels)), excluded=1)
@@ -1413,6 +1415,7 @@ def plan_cases(profile="fusion-rich", rotate=0):
         "dtypes": ["float64", "float64", "int64", "float32", "bool"],
         "input_kinds": ["asarray"] * 4 + ["ones", "full"],
         "max_dims": 3,
+        "many_chunks": bool(rotate % 2),
     }
 
     @st.composite
